@@ -179,7 +179,7 @@ def judge_c04(d):
 
 
 PROPS["C04"] = {
-    "lean_modules": ["P2.Props.C04", "P2.Props.C04b"],
+    "lean_modules": ["P2.Props.C04", "P2.Props.C04b", "P2.Props.C09c"],
     "audit_module": "P2.Audit.C04",
     "harness_prop": "c04",
     "profile": "release",
@@ -189,7 +189,7 @@ PROPS["C04"] = {
         "STARK transcripts not modelled yet (partial); Keccak configuration not modelled (partial)",
         "cryptographic idealisation: reading 'changes all later challenges' as a random-oracle statement; the theorems state coverage/order of absorption and state dependence",
     ],
-    "level_text": "Lean 4: the PLONK Fiat-Shamir schedule as an explicit event list with theorems that every statement component and prover message is absorbed, in order, before the challenges drawn after it (any proof shape); the challenger state machine (C13 refinement theorems); every challenge of real proofs (with/without lookups, zk, several FRI layer counts) is recomputed by the Lean model from the dumped statement+proof and must equal get_challenges; plus the property's own oracle on the implementation (alter one component => every later challenge group changes, no earlier one does)",
+    "level_text": "(STARK transcripts included: C09c theorems on the order of absorptions and draws of starky's get_challenges incl. the inside of fri_challenges, with injectivity of the observed history; correspondence on every challenge of plain and padded/variable-degree STARK proofs, incl. a proof whose final polynomial is longer than the verifier circuit's, and the oracle 'altering any absorbed component — first, middle, last element of each class — changes the challenge vector') Lean 4: the PLONK Fiat-Shamir schedule as an explicit event list with theorems that every statement component and prover message is absorbed, in order, before the challenges drawn after it (any proof shape); the challenger state machine (C13 refinement theorems); every challenge of real proofs (with/without lookups, zk, several FRI layer counts) is recomputed by the Lean model from the dumped statement+proof and must equal get_challenges; plus the property's own oracle on the implementation (alter one component => every later challenge group changes, no earlier one does)",
     "level_note": "Trusted: Lean kernel, standard axioms, hand transcription tied by exact agreement of all challenges on honest and altered transcripts. Random-oracle reading is an idealisation; STARK schedule partial.",
     "assumptions": ["Poseidon as a random oracle for the reading 'changes all challenges'"],
     "rule": "proofs of generated circuit programs under generated configs x 9+ altered transcript components each; all challenges compared; distinct = distinct request lines",
